@@ -1,7 +1,7 @@
 (** Output pools (elfi/store.py OutputPool.get_batch/add_batch/set_context, elfi/loader.py PoolLoader,
     ComputationContext.__init__/callback) over the graph calculus (C05). *)
 From Coq Require Import List String ZArith Arith Bool.
-From Elfi Require Import Graph.Net Graph.Denote.
+From Elfi Require Import Graph.Net Graph.Denote Store.Layout.
 Import ListNotations.
 
 (** a store: batch index -> value, in insertion order; [None] = the store object does not exist yet *)
@@ -96,6 +96,29 @@ Fixpoint run_batches (s : run_state) (idxs : list nat)
       Ok (s2, (out, log) :: rest)
   end.
 
+(** ---- a history of runs on ONE BatchHandler + ComputationContext ---- *)
+(** Between two runs the handler is reset() (Rejection.set_objective / sample() again: the batch index
+    goes back to 0) and stores may be removed from the pool.  What persists is the compiled net with
+    its grown output set (rs_net), the context's executor cache (rs_cache) and the pool: there is NO
+    other cross-run state, in particular nothing that remembers what the pool lacked earlier - the
+    pool is consulted afresh for every batch of every run. *)
+Definition segment := (list name * list nat)%type.   (* stores removed before the run, its batch indices *)
+
+Definition drop_stores (s : run_state) (rm : list name) : run_state :=
+  {| rs_net := rs_net s; rs_pool := fold_left remove_store rm (rs_pool s); rs_cache := rs_cache s |}.
+
+Fixpoint run_history (s : run_state) (h : list segment)
+  : res (run_state * list (list (list (name * value) * list name))) :=
+  match h with
+  | [] => Ok (s, [])
+  | (rm, idxs) :: r =>
+      do x <- run_batches (drop_stores s rm) idxs;
+      let '(s1, obs) := x in
+      do y <- run_history s1 r;
+      let '(s2, rest) := y in
+      Ok (s2, obs :: rest)
+  end.
+
 (** ---- transparency of the shared batch generator ---- *)
 (** positions at which the stochastic operations of a call log receive the generator *)
 Definition stoch_log (is_stoch : name -> bool) (log : list name) : list name := filter is_stoch log.
@@ -119,7 +142,14 @@ Definition pool_dump := list (name * list (nat * value)).
 Definition dump_pool (p : pool) : pool_dump :=
   map (fun ns : name * store => (fst ns, match snd ns with Some st => st | None => [] end)) (stores p).
 
+(** how a run of a history obtains its BatchHandler and ComputationContext *)
+Inductive reuse :=
+| Fresh          (* a new inference object: new context (empty caches), new handler (freshly compiled net) *)
+| SameContext    (* a new handler (freshly compiled net) on the previous run's context (its executor cache) *)
+| SameHandler.   (* the previous run's handler after reset(): its net with the grown output set + its context *)
+
 Record run_obs := {
+  ro_reuse : reuse;
   ro_src : snet;                                   (* the model at this run (may have been edited) *)
   ro_outputs : list name;                          (* output names given to the BatchHandler *)
   ro_removed : list name;                          (* stores removed from the pool before this run *)
@@ -129,7 +159,8 @@ Record run_obs := {
 
 Record case := {
   o_stored : list name;                            (* OutputPool(outputs) *)
-  o_runs : list run_obs
+  o_runs : list run_obs;
+  o_arrays : list store_obs                        (* array-level round trips through the pool's stores (Store/Layout.v) *)
 }.
 
 Fixpoint seqn (n : nat) : list nat := match n with O => [] | S k => seqn k ++ [k] end.
@@ -163,33 +194,55 @@ Fixpoint batches_eqb (src : snet) (a : list (list (name * value) * list name)) (
   | _, _ => false
   end.
 
-(** the model replays the runs over one persistent pool *)
-Fixpoint agree_runs (p : pool) (runs : list run_obs) : bool :=
+(** the model replays the runs over one persistent pool; [prev] = the net and executor cache the
+    previous run left in its handler / context *)
+Fixpoint agree_runs (p : pool) (prev : option (cnet * ecache)) (runs : list run_obs) : bool :=
   match runs with
   | [] => true
   | ro :: rest =>
       let p0 := fold_left remove_store (ro_removed ro) p in
-      match compile (ro_src ro) (ro_outputs ro) with
+      let start :=
+        match ro_reuse ro, prev with
+        | SameHandler, Some (g, c) => Ok (g, c)
+        | SameContext, Some (_, c) => do g <- compile (ro_src ro) (ro_outputs ro); Ok (g, c)
+        | _, _ => do g <- compile (ro_src ro) (ro_outputs ro); Ok (g, empty_cache)
+        end in
+      match start with
       | Err _ => false
-      | Ok g =>
-          match run_batches {| rs_net := g; rs_pool := p0; rs_cache := empty_cache |} (seqn (List.length (ro_batches ro))) with
+      | Ok (g, c) =>
+          match run_batches {| rs_net := g; rs_pool := p0; rs_cache := c |} (seqn (List.length (ro_batches ro))) with
           | Err _ => false
           | Ok (s', obs) =>
               batches_eqb (ro_src ro) obs (ro_batches ro)
               && dump_eqb (sort_named (dump_pool (rs_pool s'))) (ro_pool_after ro)
-              && agree_runs (rs_pool s') rest
+              && agree_runs (rs_pool s') (Some (rs_net s', rs_cache s')) rest
           end
       end
   end.
 
 Definition agree (c : case) : bool :=
-  agree_runs {| stores := map (fun n => (n, None)) (o_stored c); pl_batch_size := None; pl_seed := None |} (o_runs c).
+  agree_runs {| stores := map (fun n => (n, None)) (o_stored c); pl_batch_size := None; pl_seed := None |} None (o_runs c)
+  && forallb store_agree (o_arrays c).
 
 (** the property on the implementation's observations (symbolic values: equal terms = equal results) *)
-Fixpoint ok_runs (stored_keys : list name) (held : pool_dump) (runs : list run_obs) : bool :=
+(** stored nodes a handler has added to its output set while serving batches 0..i of a run: those the
+    requested outputs depend on and that the pool lacked for one of these batches *)
+Definition added_upto (src : snet) (outs keys0 : list name) (held0 : pool_dump) (i : nat) : list name :=
+  let anc := ancestors_incl (dep_edges src) outs in
+  filter (fun n => mem n anc
+                   && existsb (fun j => match lookup n held0 with
+                                        | Some st => match lookup_nat j st with Some _ => false | None => true end
+                                        | None => true
+                                        end) (seqn (S i)))
+         keys0.
+
+(** [carry] = the stored nodes the previous run's handler had added to its output set (they stay there
+    when the same handler serves the next run; a new handler starts from the requested outputs) *)
+Fixpoint ok_runs (stored_keys : list name) (held : pool_dump) (carry : list name) (runs : list run_obs) : bool :=
   match runs with
   | [] => true
   | ro :: rest =>
+      let carry0 := match ro_reuse ro with SameHandler => carry | _ => [] end in
       let held0 := filter (fun ns : name * list (nat * value) => negb (mem (fst ns) (ro_removed ro))) held in
       let keys0 := filter (fun n => negb (mem n (ro_removed ro))) stored_keys in
       (* per batch: requested outputs have their pool-free meaning; a stored node that the pool held
@@ -206,13 +259,7 @@ Fixpoint ok_runs (stored_keys : list name) (held : pool_dump) (runs : list run_o
                 supplied values; stored nodes the pool lacked for a batch of this run are extra outputs *)
              && (let W := flat_map (fun ns : name * list (nat * value) =>
                                       match lookup_nat i (snd ns) with Some v => [(fst ns, v)] | None => [] end) held0 in
-                 let anc := ancestors_incl (dep_edges (ro_src ro)) (ro_outputs ro) in
-                 let added := filter (fun n => mem n anc
-                                               && existsb (fun j => match lookup n held0 with
-                                                                    | Some st => match lookup_nat j st with Some _ => false | None => true end
-                                                                    | None => true
-                                                                    end) (seqn (S i)))
-                                     keys0 in
+                 let added := carry0 ++ added_upto (ro_src ro) (ro_outputs ro) keys0 held0 i in
                  same_multiset log (op_log (ro_src ro) (needed_ops (ro_src ro) W (ro_outputs ro ++ added))))
              && batches (S i) r
          end) 0 (ro_batches ro)
@@ -231,7 +278,11 @@ Fixpoint ok_runs (stored_keys : list name) (held : pool_dump) (runs : list run_o
                        (* only stored nodes that the requested outputs depend on take part in the run *)
                        || negb (mem (fst ns) (ancestors_incl (dep_edges (ro_src ro)) (ro_outputs ro))))
                  (ro_pool_after ro)
-      && ok_runs keys0 (ro_pool_after ro) rest
+      && ok_runs keys0 (ro_pool_after ro)
+                 (carry0 ++ match List.length (ro_batches ro) with
+                            | O => []
+                            | S k => added_upto (ro_src ro) (ro_outputs ro) keys0 held0 k
+                            end) rest
   end.
 
-Definition ok (c : case) : bool := ok_runs (o_stored c) [] (o_runs c).
+Definition ok (c : case) : bool := ok_runs (o_stored c) [] [] (o_runs c) && forallb store_ok (o_arrays c).
